@@ -194,7 +194,7 @@ func newSumCase(shares uint8, max uint64, ctx []byte) (*icase, *buildErr) {
 	}
 	c.output = func(m any) []*big.Int { return []*big.Int{bi(m.(uint64))} }
 	c.genInvalidMeas = func(t *rapid.T) (any, string) {
-		cands := []uint64{max + 1, ^uint64(0), uint64(1)<<uint(nb) - 1, uint64(1) << uint(nb%64), 1 << 63}
+		cands := []uint64{max + 1, max + 2, ^uint64(0), uint64(1)<<uint(nb) - 1, uint64(1) << uint(nb%64), uint64(1)<<uint(nb%64) + 1, 1 << 63}
 		k := rapid.IntRange(0, len(cands)).Draw(t, "inv.k")
 		var v uint64
 		if k == len(cands) {
@@ -323,9 +323,9 @@ func newSumVecCase(shares uint8, length, nbits, chunk uint, ctx []byte) (*icase,
 			return make([]uint64, n), "wrong-length"
 		}
 		v := make([]uint64, length)
-		i := rapid.IntRange(0, int(length)-1).Draw(t, "inv.i")
+		i := pickFrom(t, []int{0, int(length) - 1, rapid.IntRange(0, int(length)-1).Draw(t, "inv.i")}, "inv.pos")
 		if k == 1 {
-			v[i] = uint64(1) << nbits
+			v[i] = uint64(1)<<nbits + uint64(pick(t, 2, "inv.d"))
 		} else {
 			v[i] = rapid.Uint64Range(uint64(1)<<nbits, ^uint64(0)).Draw(t, "inv.v")
 		}
@@ -381,7 +381,7 @@ func newHistogramCase(shares uint8, length, chunk uint, ctx []byte) (*icase, *bu
 		case 0:
 			return uint64(length), "bucket==length"
 		case 1:
-			return uint64(length) + 1, "bucket>length"
+			return uint64(length) + 1 + uint64(pick(t, 2, "inv.d")), "bucket>length"
 		case 2:
 			return ^uint64(0), "bucket>length"
 		default:
@@ -486,6 +486,9 @@ func newMhcvCase(shares uint8, length, maxW, chunk uint, ctx []byte) (*icase, *b
 	c.genInvalidMeas = func(t *rapid.T) (any, string) {
 		if maxW < length && rapid.Bool().Draw(t, "inv.w") {
 			w := rapid.IntRange(int(maxW)+1, int(length)).Draw(t, "inv.weight")
+			if pick(t, 2, "inv.w.edge") == 0 {
+				w = int(maxW) + 1
+			}
 			return withWeight(t, w, "inv"), "weight>max"
 		}
 		n := int(length) + 1
